@@ -302,7 +302,10 @@ structure St where
   failBlobs : Nat := 0
   /-- the same for the wrapped `meta` store -/
   failMeta : Nat := 0
-  /-- the last ReceiveBlob returned an error of a wrapped store -/
+  /-- transient fault of the meta index: its k-th next `Set` made by ReceiveBlob fails (driver only: the
+  histories of `Props/C11.lean` have no failing index) -/
+  failIndex : Nat := 0
+  /-- the last ReceiveBlob returned an error of a wrapped store or of the index -/
   lastFailed : Bool := false
 deriving Repr, DecidableEq
 
@@ -506,8 +509,11 @@ def recvStep (psteps : List PStep) (s : St) : St :=
       | some br => St.record P psteps { s with recv := some { x with rest := rest } } ⟨br, [x.plainBR]⟩
       | none => { s with recv := some { x with rest := rest } }
     | .setIndex :: rest =>
+      -- "error updating index" (encrypt.go:196): the meta blob is written and recorded, the row is not set
+      if s.failIndex = 1 then { s with failIndex := 0, lastFailed := true, recv := some { x with rest := [] } }
+      else
       { s with index := ins x.plainBR (packIndexEntry x.size x.encBR) s.index,
-               recv := some { x with rest := rest } }
+               recv := some { x with rest := rest }, failIndex := s.failIndex - 1 }
 
 /-- ReceiveBlob under the driver's schedules: `late = false`: the packers it starts run after it
 returned; `late = true`: they run as soon as they are started, i.e. before `index.Set` -/
@@ -530,6 +536,28 @@ def receiveBlob (rsteps : List RStep) (psteps : List PStep) (late : Bool) (s : S
   | (s', none) =>
     let s1 := recvRun P psteps late (rsteps.length + 1) s'
     (drain P psteps (drainFuel s1) s1, if s1.lastFailed then .err else .sized plain.length)
+
+/-- a ReceiveBlob whose duplicate check ran BEFORE another ReceiveBlob of the same ref set the index row
+(two overlapping uploads of one blob): it goes on although the index has the row by now -/
+def receiveBlobForced (rsteps : List RStep) (psteps : List PStep) (s : St) (plainBR plain : Bytes) : St × Res :=
+  if P.digest plain ≠ plainBR then (s, .corrupt)
+  else
+    let enc := encryptBlob P s.nonce plain
+    let s' := { s with nonce := s.nonce + 1, lastFailed := false,
+                       recv := some ⟨plainBR, plain.length, enc, P.digest enc, none, rsteps⟩ }
+    let s1 := recvRun P psteps false (rsteps.length + 1) s'
+    (drain P psteps (drainFuel s1) s1, if s1.lastFailed then .err else .sized plain.length)
+
+/-- two overlapping ReceiveBlob calls of the same blob: A passes the duplicate check and hangs in the
+wrapped blobs store; B runs from start to end; A resumes.  Answers of (A, B). -/
+def receiveOverlapping (rsteps : List RStep) (psteps : List PStep) (s : St) (plainBR plain : Bytes) :
+    St × Res × Res :=
+  match fetchMeta P s.index plainBR with
+  | .ok sz _ => (s, .sized sz, .sized sz)
+  | _ =>
+    let b := receiveBlob P rsteps psteps false s plainBR plain
+    let a := receiveBlobForced P rsteps psteps b.1 plainBR plain
+    (a.1, a.2, b.2)
 
 /-! ## Fetch, StatBlobs, EnumerateBlobs -/
 
